@@ -133,6 +133,9 @@ type Scenario struct {
 	Files []File   `json:"files,omitempty"`
 	// Stdin: nil = /dev/null
 	Stdin    *Bytes `json:"stdin,omitempty"`
+	// standard input is a pipe whose writer stays silent for this long before it delivers everything
+	// (a slow producer: the one place where real time passes, decided by the scenario)
+	StdinDelayMs int `json:"stdin_delay_ms,omitempty"`
 	TmpOther bool   `json:"tmp_other_fs,omitempty"`
 	// TmpMissing: TMPDIR names a directory that does not exist yet (yq creates it)
 	TmpMissing bool     `json:"tmp_missing,omitempty"`
